@@ -120,6 +120,7 @@ int  sim_spawn(const char *name, int node, void (*fn)(void *), void *arg);
 void sim_run(void);                              /* main thread: run until all tasks done */
 void sim_trace(int kind, int64_t a, int64_t b);
 void sim_yield(int kind, int64_t a, int64_t b);  /* scheduling point */
+void sim_progress(void);                         /* heartbeat for the CPU watchdog between library calls inside one step */
 int  sim_block(WaitPred pred, void *arg);        /* returns 0 ok, -1 aborted */
 void sim_sleep(int64_t ns);
 void sim_retry_wait(int64_t ns);                /* sleep of an EAGAIN retry loop: wakes when the awaited condition can hold */
